@@ -139,3 +139,19 @@ Definition generate_mesh (idx : Z -> Z -> Z -> Z) (junc : Z -> bool) (ncells : Z
        | None => None
        end
   else Some (st1, narr).
+
+(* ---- executable form of the conditions under which Proofs/ResampleConsistency.v shows that consecutive vertices of every resampled
+   cell cycle are joined by a rebuilt mesh edge: every junction is named by a resampled interface, the vertices of an interface that
+   any resampled interface names are exactly its own selection (in order), every cell has a junction.  jl = the junction ids. *)
+Definition resample_hyps (idx : Z -> Z -> Z -> Z) (jl : list Z) (ne : Z) (st : vstate) : bool :=
+  let junc := fun v => memZ v jl in
+  let bedges := create_edges_new junc (cs st) in
+  let narr := n_edge_array idx ne bedges in
+  let keep := fun v => memZ v (concat narr) in
+  forallb keep jl && forallb (fun f => listZ_eq (filter keep f) (select_iface idx ne f)) bedges
+  && forallb (fun c => existsb junc (snd c)) (cs st).
+(* the conclusion, executable: every cyclically consecutive pair of every cell cycle has a mesh edge in one of the two directions *)
+Definition cyc_pairs (l : list Z) : list (Z * Z) := consecutive_pairs (l ++ [headZ l]).
+Definition has_edge (es : list (Z * (Z * Z))) (p : Z * Z) : bool :=
+  existsb (fun e => (Z.eqb (fst (snd e)) (fst p) && Z.eqb (snd (snd e)) (snd p)) || (Z.eqb (fst (snd e)) (snd p) && Z.eqb (snd (snd e)) (fst p))) es.
+Definition cycles_joined (st : vstate) : bool := forallb (fun c => forallb (has_edge (es st)) (cyc_pairs (snd c))) (cs st).
